@@ -34,6 +34,16 @@ def floor(tier):
 def cases(tier, rng):
     n = 32 if tier == "quick" else 800
     out = []
+    # anchors: the massive N3LO coefficient functions come from tabulated grids loaded lazily per process: FL before F2, F2 before FL
+    for k in range(2 if tier == "quick" else 12):
+        g = cards.rand_grid(rng)
+        names = [["FL_charm", "F2_charm", "F2_total"], ["F2_charm", "FL_charm", "FL_total"]][k % 2]
+        pts = [dict(x=float(rng.uniform(0.05, 0.3)), Q2=cards.logu(rng, 30.0, 300.0), cls="bulk") for _ in range(2)]
+        hist = [dict(kind=hk, perm_obs=[int(v) for v in rng.permutation(3)], perm_pts=[int(v) for v in rng.permutation(2)], abort_at=int(rng.integers(1, 40)), dup=0, sub=(int(rng.integers(3)), 0))
+                for hk in ("permute", "subset", "repeat")]  # fmt: skip
+        out.append(dict(id=f"c14-n3lo{k}", names=names, points=pts, extra_names=["F1_charm", "FL_light"], extra_points=[dict(x=0.2, Q2=50.0, y=0.4), dict(x=0.3, Q2=80.0, y=0.6)],
+                        histories=hist, grid=g, theory=dict(PTO=3, FNS=cards.pick(rng, ["FFNS", "FONLL-FFNS"]), NfFF=3, TMC=0, RenScaleVar=False, FactScaleVar=False),
+                        obs=dict(prDIS="NC", ProjectileDIS="electron"), kinds=["F2", "FL"]))  # fmt: skip
     for i in range(n):
         cfg = cards.rand_config(rng, ptos=(0, 1, 1, 2) if tier == "thorough" else (0, 1, 1, 1, 2), sv=True, ew=False)
         tmc = int(cards.pick(rng, [0, 1, 2, 3]))
@@ -49,6 +59,12 @@ def cases(tier, rng):
                 names.append(nm)
         pts = cards.rand_points(rng, g["xgrid"], n=4, q2lo=4.0, q2hi=2e3, xmax=0.7)
         pts[1]["Q2"] = pts[0]["Q2"]  # shared Q2: the cache is not dropped between them
+        if i % 3 == 0:
+            # two points whose kinematic values are permutations of each other ((x,Q2) = (a,b) and (b,a), both below 1): cache keys
+            # built from the bare values must still tell them apart
+            a_, b_ = float(rng.uniform(0.35, 0.6)), float(rng.uniform(0.65, 0.95))
+            pts[2].update(x=a_, Q2=b_)
+            pts[3].update(x=b_, Q2=a_)
         for p in pts:
             p["x"] = float(max(p["x"], min(0.4, g["xgrid"][1] * 2.0)))  # keep the Nachtmann variable inside the grid
         xsk = cards.pick(rng, ["XSHERANC", "XSHERACC", "XSCHORUSCC", "F1", "FW"])
@@ -58,6 +74,10 @@ def cases(tier, rng):
         for p in extra_pts:
             p["x"] = float(max(p["x"], min(0.4, g["xgrid"][1] * 2.0)))
             p["y"] = float(rng.uniform(0.1, 0.9))
+        if i % 2 == 0:
+            extra_pts[1].update(x=extra_pts[0]["y"], y=extra_pts[0]["x"], Q2=extra_pts[0]["Q2"])  # x and y exchanged at the same Q2
+            if extra_pts[1]["x"] < g["xgrid"][1] * 2.0:
+                extra_pts[1].update(x=extra_pts[0]["x"], y=extra_pts[0]["y"])
         hist = []
         for hk in HKINDS:
             h = dict(kind=hk, perm_obs=[int(k) for k in rng.permutation(len(names))], perm_pts=[int(k) for k in rng.permutation(len(pts))],
